@@ -194,7 +194,7 @@ func ruleBudgetReaches(c *core.Ctx) {
 			info := fn.Info()
 			src := c.Prog.Src(fn.Decl.Body)
 			o.At(fn.Site(fn.Decl, ""))
-			o.Require(strings.Contains(src, "budget:=membudget.New(limits.StreamBudget(x.length))"), "%s does not derive the budget from the raw stream length", name)
+			o.Shape(strings.Contains(src, "budget:=membudget.New(limits.StreamBudget(x.length))"), "%s does not derive the budget from the raw stream length", name)
 			b := localVar(fn, "budget", 0)
 			for _, cs := range core.CallsIn(info, fn.Decl, true) {
 				if strings.HasSuffix(cs.Key, ".Decode") {
@@ -219,8 +219,8 @@ func ruleDimensionCaps(c *core.Ctx) {
 		}
 		o.At(fn.Site(nr[0].Call, "reader built"))
 		src := c.Prog.Src(fn.Decl.Body)
-		o.Require(strings.Contains(src, "geoMax:=max(1,min(limits.MaxImageHeight,limits.MaxImagePixels/cols))"), "the geometric cap is not max(1, min(MaxImageHeight, MaxImagePixels/cols))")
-		o.Require(strings.Contains(src, "cols:=max(params.Columns,1)"), "the column count used for the cap is not clamped to at least 1")
+		o.Shape(strings.Contains(src, "geoMax:=max(1,min(limits.MaxImageHeight,limits.MaxImagePixels/cols))"), "the geometric cap is not max(1, min(MaxImageHeight, MaxImagePixels/cols))")
+		o.Shape(strings.Contains(src, "cols:=max(params.Columns,1)"), "the column count used for the cap is not clamped to at least 1")
 		geo := localVar(fn, "geoMax", 0)
 		// on every path to NewReader: either MaxRows was assigned geoMax, or the fact MaxRows <= geoMax && MaxRows > 0 holds
 		var assign []*core.V
